@@ -474,6 +474,25 @@ def gen_pack_edge(rng, big: bool):
     return {"fn": "binpack", "sizes": sizes, "capacity": [k, d, fl], "algorithm": algo, "flags": flags, "edge": True}
 
 
+def gen_knap_boundary(rng, big: bool):
+    """boundary values of the regenerated constants: capacity at / around max_capacity = 100000 (scale becomes exactly
+    1.0 on the decimal path) and around 100 (scale hits its cap 1000.0), with half-unit weights whose floors fit the
+    integer table but whose real sum overflows, and with integer weights"""
+    base = rng.choice([100000, 100000, 100000, 100])
+    ck2 = 2 * base + rng.choice([0, 0, 0, -2, 2, 1, -1])          # capacity in half units
+    fl = rng.random() < 0.5
+    cap = [ck2 // 2, 1, fl] if ck2 % 2 == 0 else [ck2, 2, False]
+    a = rng.randint(1, ck2 // 2 - 1)
+    if rng.random() < 0.7:   # two half-unit weights: floors add up to the capacity (+-1), real sum one more
+        wts = [[2 * a + 1, 2, False], [2 * (ck2 // 2 - a) + 1 + 2 * rng.choice([0, 0, -1]), 2, False]]
+    else:                     # integer weights filling the capacity exactly / one over
+        wts = [[a, 1, fl], [ck2 // 2 - a + rng.choice([0, 1]), 1, fl]]
+    for _ in range(rng.randint(0, 2)):
+        wts.append([rng.choice([1, 2, 3, 2 * rng.randint(1, base)]), 2, False])
+    vals = [[rng.randint(1, 5), 1, False] for _ in wts]
+    return {"fn": "knapsack", "values": vals, "weights": wts, "capacity": cap, "minimize": False, "boundary": True}
+
+
 def gen_history(rng, big: bool):
     """2-4 consecutive calls in ONE process on related inputs (equal recipes are the same Python objects)"""
     kind = rng.choice(["knap_capacity", "knap_minmax", "pack_heuristics", "pack_capacity", "same_twice",
@@ -586,6 +605,9 @@ def edge_cases():
     yield K([N(1), N(1)], [N(1, 10), N(2, 10)], N(3, 10))
     yield K([N(3), N(3), N(3)], [N(2), N(2), N(2)], N(4))
     yield K([N(10), N(15), N(1), N(1)], [N(1, 1, True), N(1499, 1000), N(1, 10**12), N(1, 10**12)], N(25, 10))
+    for c in (N(100000), N(100000, 1, True), N(99999), N(100001), N(200001, 2)):   # capacity at / around max_capacity
+        yield K([N(1), N(1)], [N(100001, 2), N(100001, 2)], c)
+    yield K([N(1), N(1)], [N(101, 2), N(101, 2)], N(100))                            # ... and at the scale cap
     P = lambda s, c, a: {"fn": "binpack", "sizes": s, "capacity": c, "algorithm": a,  # noqa: E731
                          "flags": [a is None or "b" in a.split("-")[0], a is None or "decreasing" in a]}
     for a in ("first-fit", "best-fit", "first-fit-decreasing", None):
@@ -769,6 +791,8 @@ def judge_knap(ctx, case, out, reply):
             ctx.count("present:values_is_weights_same_object")
     if len(case["values"]) > 20:
         ctx.count("large:knapsack")
+    if case.get("boundary"):
+        ctx.count("boundary:knapsack_constants")
     if case.get("edge"):
         ctx.count("edge:knapsack")
         if any(0 < frac(x) < Fraction(1, 10**5) for x in case["weights"]):
@@ -1279,6 +1303,8 @@ def run(ctx, budget):
             cases.append(gen_history(ctx.rng, big))
         if i % 16 == 3:
             cases.append(add_style(ctx.rng, gen_knap_edge(ctx.rng, big)))
+        if i % 150 == 11:
+            cases.append(gen_knap_boundary(ctx.rng, big))
         if i % 24 == 5:
             cases.append(add_style(ctx.rng, gen_pack_edge(ctx.rng, big)))
         if i % 60 == 7:
